@@ -28,22 +28,34 @@ def fingerprint(path):
     return hashlib.sha1(src.encode()).hexdigest()[:16]
 
 
+def source_files(repo):
+    """all non-test Go files of the repository (hooks under the verif build tag excluded)"""
+    out = []
+    for root, dirs, files in os.walk(repo):
+        dirs[:] = [d for d in dirs if not d.startswith(".")]
+        for f in files:
+            if f.endswith(".go") and not f.endswith("_test.go") and not f.startswith("verif_hooks"):
+                out.append(os.path.relpath(os.path.join(root, f), repo))
+    return sorted(out)
+
+
 def changed(prop, repo):
-    """anchored files of `prop` whose fingerprint differs from the recorded one"""
+    """Go files in the packages the property is anchored in whose fingerprint differs from the recorded one
+    (the anchored files themselves, and their package neighbours, which they call into)"""
     try:
         want = json.load(open(FILE))
     except OSError:
         return []
-    return [f for f in anchors(prop) if fingerprint(os.path.join(repo, f)) != want.get(f)]
+    dirs = {os.path.dirname(f) for f in anchors(prop)}
+    cand = {f for f in set(want) | set(source_files(repo)) if os.path.dirname(f) in dirs}
+    return sorted(f for f in cand if fingerprint(os.path.join(repo, f)) != want.get(f))
 
 
 if __name__ == "__main__":
     if len(sys.argv) > 1 and sys.argv[1] == "write":
         repo = sys.argv[2] if len(sys.argv) > 2 else "/repo"
-        files = set()
-        for line in open(os.path.join(VERIF, "properties.jsonl")):
-            files |= {f for f in json.loads(line)["anchors"].get("files", []) if f.endswith(".go")}
-        json.dump({f: fingerprint(os.path.join(repo, f)) for f in sorted(files)}, open(FILE, "w"), indent=1)
+        files = source_files(repo)
+        json.dump({f: fingerprint(os.path.join(repo, f)) for f in files}, open(FILE, "w"), indent=1)
         print("fingerprints.json:", len(files), "files")
     else:
         for line in open(os.path.join(VERIF, "properties.jsonl")):
